@@ -775,3 +775,30 @@ def all_chunkings(n, maxparts=None):
     for first in range(1, n + 1):
         for restc in all_chunkings(n - first):
             yield [first] + restc
+
+
+# ----------------------------------------------------------------------------- ports for real UDP servers
+_udp_port_next = [0]
+
+
+def free_udp_port():
+    """A UDP port for a real TftpServer of a harness.  TftpServer sets SO_REUSEADDR on its socket; with bind_port=0 the
+    kernel may then hand out a port that another SO_REUSEADDR UDP socket - the TFTP server of ANOTHER check running at
+    the same time - already uses, and datagrams go astray between the two processes (seen as a false alarm when checks
+    ran in parallel).  So harnesses pick the port themselves: below the ephemeral range, starting at a place that depends
+    on the process id, and probed with a socket that does NOT set SO_REUSEADDR (its bind fails if anybody holds the port)."""
+    import socket as _s
+    if not _udp_port_next[0]:
+        _udp_port_next[0] = 20000 + (os.getpid() * 97) % 11000
+    for _ in range(12000):
+        port = _udp_port_next[0]
+        _udp_port_next[0] = 20000 + (port - 20000 + 1) % 11900
+        t = _s.socket(_s.AF_INET6, _s.SOCK_DGRAM)
+        try:
+            t.bind(("::", port))
+            return port
+        except OSError:
+            continue
+        finally:
+            t.close()
+    return 0
